@@ -42,6 +42,15 @@ def make_project(rng, nfiles: int, tag: str) -> dict:
         files["bin/deploy_%s" % tag] = "#!/usr/bin/env python3\ndef deploy_%s(left, right):\n%s" % (tag, shared)
         files["bin/release_%s" % tag] = "#!/usr/bin/env python3\ndef release_%s(left, right):\n%s" % (tag, shared)
         files["bin/helper_%s.py" % tag] = "def helper_%s(left, right):\n%s" % (tag, shared)
+    # alias bait: one module aliases a library under the name the next one uses for something unrelated - a rule instance that lints
+    # both (sequential run) must judge each on its own, like the per-file instances of the workers do
+    if nfiles >= 8:
+        for k in sorted(files)[:2]:
+            del files[k]
+        files["src/aa_bait_%s.py" % tag] = ("import re as rx\nimport logging as lg\n\n\ndef scan_a_%s(lines, pat):\n    out = []\n    for line in lines:\n        if pat.match(line):\n            out.append(line)\n"
+                                            "    lg.info(out)\n    return out\n\n\ndef by_alias_%s(lines):\n    return [line for line in lines if rx.match(\"x\", line)]\n") % (tag, tag)
+        files["src/ab_bait_%s.py" % tag] = ("import regex as pat\n\n\ndef scan_b_%s(lines, rx, lg):\n    out = []\n    for line in lines:\n        if rx.match(line):\n            out.append(line)\n        lg.write(line)\n"
+                                            "    return out\n\n\ndef by_alias_b_%s(lines):\n    return [line for line in lines if pat.match(\"y\", line)]\n") % (tag, tag)
     return files
 
 
